@@ -21,6 +21,7 @@
 -/
 import GunYu.Proofs.SenderWire
 import GunYu.Proofs.TargetSeq
+import GunYu.Proofs.Crash
 
 namespace GunYu.Props.C02
 open GunYu GunYu.Sender GunYu.Target
@@ -153,6 +154,73 @@ theorem crash_inside_block_is_boundary (done : List Batch) (hwf : AllWF done) (b
   unfold applyLog at h2
   rw [h2]
   exact ⟨rfl, rfl⟩
+
+/-- every offset found in the checkpoint hashes after executing `E` was either
+    there before or was written by a `<rid>_offset` request of `E` -/
+theorem stored_comes_from (E : List Req) (t : TState) (d : Int) (o : Int)
+    (h : (getCp (E.foldl execReq t).cps d).offset = some o) :
+    (getCp t.cps d).offset = some o ∨ o ∈ cpOffsetsB E := by
+  induction E generalizing t with
+  | nil => exact Or.inl h
+  | cons r E ih =>
+    rw [List.foldl_cons] at h
+    rcases ih (execReq t r) h with h1 | h1
+    · cases r with
+      | cpOffset o' =>
+        simp only [execReq] at h1
+        by_cases hd : d = t.cur
+        · subst hd
+          rw [getCp_setCp_eq] at h1
+          right; simp only at h1; simp [cpOffsetsB, cpOfReq]; left; injection h1 with h1; exact h1.symm
+        · left; rw [getCp_setCp_ne _ _ _ _ hd] at h1; exact h1
+      | cpMeta =>
+        left
+        simp only [execReq] at h1
+        by_cases hd : d = t.cur
+        · subst hd; rw [getCp_setCp_eq] at h1; exact h1
+        · rw [getCp_setCp_ne _ _ _ _ hd] at h1; exact h1
+      | cmd n a off =>
+        left
+        have : (execReq t (.cmd n a off)).cps = t.cps := by
+          simp only [execReq]; split
+          · split
+            · split <;> rfl
+            · rfl
+          · split <;> rfl
+        rw [this] at h1; exact h1
+      | multi => left; exact h1
+      | exec => left; exact h1
+    · right
+      simp only [cpOffsetsB, List.filterMap_cons] at h1 ⊢
+      cases cpOfReq r <;> simp_all
+
+/-- **A crash at any instant loses no write.** Let the target die after ANY
+    number `k` of the requests of ANY run. Then the requests it executed are a
+    prefix `E` of the batch bodies (`R` = what it did not execute), and every
+    position `o` that this run stored on it — in whichever database — lies
+    strictly below every data command (SELECT items included) it did not
+    execute: restarting from a stored position re-reads every such command. -/
+theorem crash_loses_no_write (c : SCfg) (evs : List Ev) (hm : SMono initS.lastOffset evs)
+    (t : TState) (hq : t.queued = none) (k : Nat) :
+    let out := (run c initS evs).2
+    ∃ E R, bodies out = E ++ R ∧
+      SameData (applyLog t (out.flatten.take k)) (E.foldl execReq t) ∧
+      ∀ o ∈ cpOffsetsB E, ∀ y, 2 * y ∈ keysB R → o < y := by
+  simp only
+  obtain ⟨E, ⟨R, hER⟩, hsame⟩ := crash_executes_body_prefix (run c initS evs).2
+    (run_wf c initS evs) t hq k
+  refine ⟨E, R, hER.symm, hsame, ?_⟩
+  intro o ho y hy
+  have hsorted := wire_ordered c evs hm
+  rw [← keys_bodies _ (run_wf c initS evs), ← hER, keysB_append, List.pairwise_append] at hsorted
+  have hk : 2 * o + 1 ∈ keysB E := by
+    unfold cpOffsetsB at ho
+    unfold keysB
+    obtain ⟨r, hr, hro⟩ := List.mem_filterMap.mp ho
+    refine List.mem_filterMap.mpr ⟨r, hr, ?_⟩
+    cases r <;> simp_all [cpOfReq, keyOfReq]
+  have := hsorted.2.2 _ hk _ hy
+  omega
 
 /-- the checkpoint offset is written into the database the connection is in -/
 theorem cp_lands_in_current_db (t : TState) (o : Int) :
